@@ -284,3 +284,27 @@ Definition rresult (r : result) : rdr :=
   | ROffsets l => rlist (ropt (rpair rQ rQ)) l
   | RBox l => rlist (rpair rQ rQ) l
   end.
+
+(* ---- round 4 (review) additions: reading of `thr`, value domain ----
+
+   THE THRESHOLD.  `cms > threshold` (and `max_values < threshold` in find_global_peaks_rough)
+   compares a float32 / float16 / float64 tensor with a Python float: torch evaluates it IN
+   THE TENSOR'S DTYPE, i.e. the Python float is first rounded to that dtype
+   (float32(0.2) = 13421773/67108864 > 1/5, float16(0.2) = 0.19995 < 1/5).  Everywhere in
+   this development `thr` denotes that ROUNDED threshold, an exact rational: the harness
+   passes `Fraction(dtype(float(threshold)))` (c06_maps.thr_in_dtype) to the model and to
+   the oracle, and generates thresholds 0.1 / 0.2 / 0.3 / 0.7 with cells exactly at, just
+   below and just above dtype(threshold).  A statement about the number the caller wrote
+   would be false for cells equal to dtype(threshold) (review C06 finding 1, C07 finding 2).
+
+   THE VALUE DOMAIN.  The centre term of the dilation is computed as v + (-1e4) in the
+   tensor's dtype.  In exact arithmetic (this model) it is below v for every v; in float32
+   it EQUALS v as soon as half an ulp of v exceeds 1e4, i.e. for v > 2^38 (float64: v >
+   2^67; +inf in every dtype), and the code then drops an isolated maximum.  Below, border
+   cells <= -1e4 (the geodesic padding value) are never reported.  The completeness
+   theorems therefore carry `in_value_domain v` for the reported value v; only its lower
+   half is used by the proofs over Q, the upper half is the limit of the tie between this
+   exact model and the float code (the harness generates values up to and including 2^38
+   and logs the behaviour beyond). *)
+Definition VMAX : Q := 274877906944 # 1.      (* 2^38 *)
+Definition in_value_domain (v : Q) : Prop := BORDER < v /\ v <= VMAX.
